@@ -102,7 +102,7 @@ RefMessageBytes(m) ==
     [] f = "length"  -> m.head \o Prefix(WBody(m), m.clv)
     [] f = "chunked" -> m.head \o BodySent(m)
     [] f = "close"   -> m.head \o BodySent(m)
-    [] OTHER         -> m.head
+    [] OTHER         -> m.head \o BodySent(m)     \* invalid framing: nothing delimits the message but the close
 RefInterimBytes(m) == m.ihead
 
 \* payload after removing the content coding
@@ -143,30 +143,36 @@ obsvars == <<delivered, recorded, reqRecorded, reqSent, outcome, connClosed, lef
 Done(x) == outcome[x] # "none"
 Ok(x)   == outcome[x] = "ok"
 
+\* Exchange x is outside the guarantee when an earlier exchange on the same (kept) connection completed while
+\* octets the server had sent for it were still in flight (a surplus after a length-delimited body that arrives
+\* later): the client cannot know about them, and they are what the next read sees.  (Lenient reading; the strict
+\* one - PersistStrict - is reported as a note only.)
+Taint(x) == \E j \in 1..(x - 1) : unseen[j] > 0 /\ \A i \in j..(x - 1) : ~connClosed[i]
+Clean(x) == ~Taint(x)
+
 \* ------------------------------------------------------------------ C08
 \* the body handed to the caller is exactly the payload delimited by the framing rules
-Payload       == \A x \in XS : Ok(x) => delivered[x] = ref[x].expected
+Payload       == \A x \in XS : (Clean(x) /\ Ok(x)) => delivered[x] = ref[x].expected
 \* a message cut short (or with invalid framing) is never a success
-TruncIsError  == \A x \in XS : Ok(x) => ref[x].complete
+TruncIsError  == \A x \in XS : (Clean(x) /\ Ok(x)) => ref[x].complete
 \* a complete, well-framed message is a success (whatever the segmentation)
-CompleteIsOk  == \A x \in XS : (Done(x) /\ ref[x].completeS) => Ok(x)
+CompleteIsOk  == \A x \in XS : (Clean(x) /\ Done(x) /\ ref[x].completeS) => Ok(x)
 \* the client only waits beyond the end of what the server sends when the framing is "until close"
-NoOverRead    == \A x \in XS : stalled[x] => ref[x].framing = "close"
+NoOverRead    == \A x \in XS : (Clean(x) /\ stalled[x]) => ref[x].framing = "close"
 \* after a success on a kept connection no received octet is left unconsumed: the next response is parsed
 \* from its first byte; surplus bytes go away with the connection.  (Lenient reading: octets still in
-\* flight when the response completes cannot be known to the client; PersistStrict counts them too and
-\* is reported as a note only.)
-Persist       == \A x \in XS : (Ok(x) /\ ~connClosed[x]) => leftover[x] = 0
+\* flight when the response completes cannot be known to the client; PersistStrict counts them too.)
+Persist       == \A x \in XS : (Clean(x) /\ Ok(x) /\ ~connClosed[x]) => leftover[x] = 0
 PersistStrict == \A x \in XS : (Ok(x) /\ ~connClosed[x]) => (leftover[x] = 0 /\ unseen[x] = 0)
 NoHang        == \A x \in XS : outcome[x] # "hang"
 
 \* ------------------------------------------------------------------ C04
 RespOK(x, b)  == b = ref[x].bytes \/ b = ref[x].ibytes \o ref[x].bytes
-RespBytes     == \A x \in XS : Ok(x) => RespOK(x, recorded[x])
+RespBytes     == \A x \in XS : (Clean(x) /\ Ok(x)) => RespOK(x, recorded[x])
 ReqBytes      == \A x \in XS : Done(x) => reqRecorded[x] = reqSent[x]
 RecCount      == \A x \in XS : (warcDone /\ Ok(x)) => (reqRecs[x] = 1 /\ respRecs[x] = 1)
 RecAtMostOne  == \A x \in XS : reqRecs[x] <= 1 /\ respRecs[x] <= 1
 RecBlocks     == \A x \in XS : (warcDone /\ Ok(x) /\ reqRecs[x] = 1 /\ respRecs[x] = 1)
-                                 => (RespOK(x, respBlock[x]) /\ reqBlock[x] = reqSent[x])
+                                 => ((Clean(x) => RespOK(x, respBlock[x])) /\ reqBlock[x] = reqSent[x])
 RecLinked     == \A x \in XS : (warcDone /\ Ok(x) /\ reqRecs[x] = 1 /\ respRecs[x] = 1) => linked[x]
 =============================================================================
